@@ -164,5 +164,7 @@ type Obligation struct {
 	Model   string
 	SMT     string
 	Vacuity bool // a satisfiability (must be sat) check rather than a validity check
+	Parts   []*Obligation // for a grouped conjunction: the conjuncts, discharged one by one when the group does not go through
+	ViaGroup bool
 	AxiomsUsed []string
 }
